@@ -58,7 +58,8 @@ def gen_config(rng, bulk=False):
     else:
         axes = [build.gen_axis(rng, max_bins=6 if ndim == 1 else (4 if ndim == 2 else 3), families=fams, scaled=0.08)
                 for _ in range(ndim)]
-    wkind = rng.choice(build.WEIGHT_KINDS + ["big", "big_i"] if rng.random() < 0.25 else build.WEIGHT_KINDS)
+    wkind = rng.choice(build.WEIGHT_KINDS + ["big", "big_i", "int_mid", "int_mid"] if rng.random() < 0.3
+                       else build.WEIGHT_KINDS)
     dtype = build.pick_dtype(rng, wkind)
     if bulk and dtype in ("float16", "int16"):
         dtype = "float32" if dtype == "float16" else "int32"  # thousands of entries: counts beyond 2048 / 32767
@@ -69,6 +70,8 @@ def gen_config(rng, bulk=False):
         "exact": wkind != "float",
         # sums of squared weights beyond 2**53 are exact only in integer bins
         "exact_e2": wkind not in ("float", "big", "big_i"),
+        # element type of weight arrays (integer weights may come as narrow integers; the histogram is wider)
+        "wdtype": rng.choice(["int16", "int32", "int64"]) if wkind == "int_mid" else None,
         # value type of the stream: float64 values, or values representable in float32 that are handed over
         # in single precision by some deliveries (numpy float32 scalars / arrays) and in double by others
         "vtype": rng.choice(["f64", "f64", "f64", "f32"]),
@@ -220,7 +223,7 @@ def weight_scale2(entries, idxs):
     return sum(float(entries[i][1]) ** 2 if entries[i][1] is not None else 1.0 for i in idxs) + 1.0
 
 
-def batch_data(entries, idxs, ndim, cont):
+def batch_data(entries, idxs, ndim, cont, wdtype=None):
     vals = [entries[i][0] for i in idxs]
     ws = [entries[i][1] for i in idxs]
     weights = None if (not ws or ws[0] is None) else ws
@@ -241,6 +244,8 @@ def batch_data(entries, idxs, ndim, cont):
         # (weights beyond 2**31 travel as floats: their squares are in range, sums of them in int64 are not)
         all_int = all(isinstance(e[1], int) and e[1] < 2 ** 31 for e in entries if e[1] is not None)
         weights = np.asarray(weights, dtype=np.int64 if all_int else np.float64)
+    if wdtype and weights is not None and len(weights):
+        weights = np.asarray(weights, dtype=np.dtype(wdtype))  # also for list containers: a typed array
     return data, weights
 
 
@@ -413,7 +418,7 @@ def execute(plan, ctx):
             if R.h is not None:
                 continue
             idxs = [i for i in op["idx"] if i < len(entries)]
-            data, weights = batch_data(entries, idxs, ndim, op.get("cont", "ndarray"))
+            data, weights = batch_data(entries, idxs, ndim, op.get("cont", "ndarray"), cfg.get("wdtype"))
             data, weights, held = with_layout(ctx, data, weights, op.get("mem"))
             bins = [build.make_binning(a) for a in hs["axes"]]
             kw = {}
@@ -539,7 +544,7 @@ def execute(plan, ctx):
         if kind == "fill_n":
             idxs = [i for i in op["idx"] if i < len(entries)]
             cont = op.get("cont", "list")
-            data, weights = batch_data(entries, idxs, ndim, cont)
+            data, weights = batch_data(entries, idxs, ndim, cont, cfg.get("wdtype"))
             kw = {}
             if weights is not None:
                 kw["weights"] = weights
